@@ -262,7 +262,8 @@ theorem trigger_setvalue_partial (dyn : Q → Bool) (sub : Path → Str → Str)
     ({ ctl := pt,
        set := { tag := if q.type == "background-geopoint".toList then "odk:setgeopoint".toList else "setvalue".toList,
                 ref := pathOf (qPaths [root] els) q.name, event := evChanged,
-                value := if q.calcu.isEmpty then none else some (sub pt q.calcu) } } : TrigFact)
+                value := if q.calcu.isEmpty then none
+                         else some (sub (pathOf (qPaths [root] els) q.name) q.calcu) } } : TrigFact)
       ∈ trigFacts (gen dyn sub root els) ∧
     expBind sub (pq, q) ∈ (gen dyn sub root els).binds ∧ (expBind sub (pq, q)).calculate = none := by
   refine ⟨?_, ?_, ?_⟩
